@@ -339,7 +339,11 @@ noncomputable def den (E : Env ℝ) (S : LeafSem) : Fn ℝ → Arg ℝ → ℝ
   | .scons _ _, _ => 0
   | .lossNone _ _ _, _ => 0
   | .loss y A f s, x => s * den E S f (Arg.zipT (· - ·) (E.applyOpt A x) y)
-  | .sqL2 _ _ _ _, _ => 0
+  | .sqL2 y A w s, x =>
+    -- `s · Σ w_i |y_i − (A x)_i|²` (documented weighted squared ℓ² loss); `0` where `A x` is not defined
+    match OpK.apply E A x with
+    | .ok ax => s * wsum w (sqmags E.cplx (Arg.zipT (· - ·) y ax).flat)
+    | .error _ => 0
 
 /-- its domain -/
 def dom (E : Env ℝ) (S : LeafSem) : Fn ℝ → Arg ℝ → Prop
@@ -577,25 +581,25 @@ theorem tree_sound (E : Env ℝ) (S : LeafSem) (hS : LeafSound E S) :
 /-- `eval` (transcription of the `__call__` methods) agrees with the denotation `den` (the
     documented arithmetic: `c·f(x)`, `f(x)+g(x)`, `Σ_i f_i(x_i)`, `s·f(A x − y)`), for every tree -/
 theorem eval_eq_den (E : Env ℝ) (S : LeafSem) (hS : ∀ i x, E.hasEval i = true → E.eval i x = S.val i x) :
-    ∀ (t : Fn ℝ) (x : Arg ℝ) (r : ℝ), Generic t → eval E t x = .ok r → r = den E S t x := by
+    ∀ (t : Fn ℝ) (x : Arg ℝ) (r : ℝ), eval E t x = .ok r → r = den E S t x := by
   intro t
   induction t with
   | leaf i =>
-    intro x r _ h
+    intro x r h
     simp only [eval] at h
     split at h
     · simp only [Except.ok.injEq] at h; rw [← h]; exact hS i x ‹_›
     · cases h
   | scaled c f ih =>
-    intro x r hg h
+    intro x r h
     simp only [eval, bind, Except.bind] at h
     cases h1 : eval E f x with
     | error e => simp [h1] at h
     | ok r' =>
       simp only [h1, pure, Except.pure, Except.ok.injEq] at h
-      rw [← h, ih x r' hg h1]; rfl
+      rw [← h, ih x r' h1]; rfl
   | sum f g ihf ihg =>
-    intro x r hg h
+    intro x r h
     simp only [eval, bind, Except.bind] at h
     cases h1 : eval E f x with
     | error e => simp [h1] at h
@@ -604,15 +608,15 @@ theorem eval_eq_den (E : Env ℝ) (S : LeafSem) (hS : ∀ i x, E.hasEval i = tru
       | error e => simp [h1, h2] at h
       | ok b =>
         simp only [h1, h2, pure, Except.pure, Except.ok.injEq] at h
-        rw [← h, ihf x a hg.1 h1, ihg x b hg.2 h2]; rfl
+        rw [← h, ihf x a h1, ihg x b h2]; rfl
   | snil =>
-    intro x r _ h
+    intro x r h
     match x with
     | .arr _ => simp [eval] at h
     | .blk (_ :: _) => simp [eval] at h
     | .blk [] => simp only [eval, Except.ok.injEq] at h; rw [← h]; rfl
   | scons f rest ihf ihr =>
-    intro x r hg h
+    intro x r h
     match x with
     | .arr _ => simp [eval] at h
     | .blk [] => simp [eval] at h
@@ -625,10 +629,10 @@ theorem eval_eq_den (E : Env ℝ) (S : LeafSem) (hS : ∀ i x, E.hasEval i = tru
         | error e => simp [h1, h2] at h
         | ok s =>
           simp only [h1, h2, pure, Except.pure, Except.ok.injEq] at h
-          rw [← h, ihf _ a hg.1 h1, ihr _ s hg.2 h2]; rfl
-  | lossNone y A s => intro x r _ h; simp [eval] at h
+          rw [← h, ihf _ a h1, ihr _ s h2]; rfl
+  | lossNone y A s => intro x r h; simp [eval] at h
   | loss y A f s ih =>
-    intro x r hg h
+    intro x r h
     simp only [eval, bind, Except.bind] at h
     cases h1 : Arg.sub (E.applyOpt A x) y with
     | error e => simp [h1] at h
@@ -638,8 +642,20 @@ theorem eval_eq_den (E : Env ℝ) (S : LeafSem) (hS : ∀ i x, E.hasEval i = tru
       | ok r' =>
         simp only [h1, h2, pure, Except.pure, Except.ok.injEq] at h
         obtain ⟨_, rfl⟩ := Arg.zip_eq_ok h1
-        rw [← h, ih _ r' hg h2]; rfl
-  | sqL2 y A w s => intro x r hg; exact hg.elim
+        rw [← h, ih _ r' h2]; rfl
+  | sqL2 y A w s =>
+    intro x r h
+    simp only [eval, bind, Except.bind] at h
+    cases h1 : OpK.apply E A x with
+    | error e => simp [h1] at h
+    | ok ax =>
+      cases h2 : Arg.sub y ax with
+      | error e => simp [h1, h2] at h
+      | ok d =>
+        simp only [h1, h2, pure, Except.pure, Except.ok.injEq] at h
+        obtain ⟨_, rfl⟩ := Arg.zip_eq_ok h2
+        rw [← h]
+        simp only [den, h1]
 
 /-- a `SeparableFunctional` denotes the sum of its components on the corresponding blocks -/
 theorem den_sep (E : Env ℝ) (S : LeafSem) : ∀ (fs : List (Fn ℝ)) (bs : List (List ℝ)), fs.length = bs.length →
